@@ -1,4 +1,4 @@
-from typing import Callable, ItemsView, Iterable, Iterator, KeysView, Mapping, MutableMapping, Optional, TypeVar, ValuesView, no_type_check, overload
+from typing import Any, Callable, ItemsView, Iterable, Iterator, KeysView, Mapping, MutableMapping, Optional, TypeVar, ValuesView, no_type_check, overload
 from .punctuation import Indent
 from .meta_item import MetaItem
 from .meta_value import MetaRawValue, MetaValue
@@ -140,6 +140,18 @@ class RepeatedRawMetaItemWrapper(
             return default
         raise KeyError(index)
 
+    def popitem(self) -> tuple[str, MetaItem]:
+        if not len(self):
+            raise KeyError('popitem(): mapping is empty')
+        item = super().pop()
+        return item.key, item
+
+    def update(self, other: Any = (), /, **kwargs: MetaItem) -> None:
+        # iterating a meta wrapper yields its items, not its keys
+        if isinstance(other, (RepeatedRawMetaItemWrapper, RepeatedMetaItemWrapper)):
+            other = {key: other[key] for key in other.keys()}
+        super().update(other, **kwargs)
+
     def keys(self) -> RepeatedRawMetaKeysView:
         return RepeatedRawMetaKeysView(self)
 
@@ -266,19 +278,33 @@ class RepeatedMetaItemWrapper(
         if not isinstance(index, str):
             return super().pop(index)
         for i, item in enumerate(self):
-            if item.key != index:
-                continue
-            item = super().pop(i)
-            value = item.value
-            if isinstance(value, base.RawModel) and value.token_store:
-                if prev := value.token_store.get_prev(value.first_token):
-                    value.token_store.remove(item.first_token, prev)
-                if next := value.token_store.get_next(value.last_token):
-                    value.token_store.remove(next, item.last_token)
-            return value
+            if item.key == index:
+                return self._pop_value(i)
         if not isinstance(default, _Empty):
             return default
         raise KeyError(index)
+
+    def _pop_value(self, i: int) -> Optional[MetaValue]:
+        item = super().pop(i)
+        value = item.value
+        if isinstance(value, base.RawModel) and value.token_store:
+            if prev := value.token_store.get_prev(value.first_token):
+                value.token_store.remove(item.first_token, prev)
+            if next := value.token_store.get_next(value.last_token):
+                value.token_store.remove(next, item.last_token)
+        return value
+
+    def popitem(self) -> tuple[str, Optional[MetaValue]]:
+        if not len(self):
+            raise KeyError('popitem(): mapping is empty')
+        key = super().__getitem__(len(self) - 1).key
+        return key, self._pop_value(len(self) - 1)
+
+    def update(self, other: Any = (), /, **kwargs: Optional[MetaValue | MetaRawValue]) -> None:
+        # iterating a meta wrapper yields its items, not its keys
+        if isinstance(other, (RepeatedRawMetaItemWrapper, RepeatedMetaItemWrapper)):
+            other = {key: other[key] for key in other.keys()}
+        super().update(other, **kwargs)
 
     def keys(self) -> RepeatedMetaKeysView:
         return RepeatedMetaKeysView(self)
